@@ -59,8 +59,6 @@ func (s *Server) DiscoveryRequest(req *pool.Message, address string, receiverFun
 	if err != nil {
 		return fmt.Errorf("cannot marshal req: %w", err)
 	}
-	s.multicastRequests.Store(token.Hash(), req)
-	defer s.multicastRequests.Delete(token.Hash())
 	if _, loaded := s.multicastHandler.LoadOrStore(token.Hash(), func(w *responsewriter.ResponseWriter[*client.Conn], r *pool.Message) {
 		receiverFunc(w.Conn(), r)
 	}); loaded {
@@ -69,6 +67,10 @@ func (s *Server) DiscoveryRequest(req *pool.Message, address string, receiverFun
 	defer func() {
 		_, _ = s.multicastHandler.LoadAndDelete(token.Hash())
 	}()
+	// the request is registered only by the discovery that owns the token: a refused one must not
+	// replace (and, on its return, remove) the request of the discovery that is running
+	s.multicastRequests.Store(token.Hash(), req)
+	defer s.multicastRequests.Delete(token.Hash())
 
 	if addr.IP.IsMulticast() {
 		err = c.WriteMulticast(req.Context(), addr, data, opts...)
